@@ -1,36 +1,34 @@
 import RTV.Lemmas.Ip
 import RTV.Lemmas.Seq
+import RTV.Lemmas.Guid
 /-!
 # C13 — IP addresses, GUIDs and other sequence entities: sound and complete recognition
 
 Theorems about the regenerated regexes (`RTV.Gen.ipv4Regex` … — what the translator read from
 `recognizers_sequence/resources/base_ip.py`, `base_GUID.py` on this run), the all-ends matcher `RTV.Re.ends`, and the
 model of `BaseIpExtractor.extract` / `BaseIpParser.drop_leading_zeros` (`RTV.Seq`).  They hold for **every** string and
-position.  `Tables` (what `\d`, `\w` mean) is a parameter; hypotheses say what is needed of it.
+position and for **every** engine tables `T` (what `\d`, `\w` mean) unless a hypothesis says otherwise.
 
-Full statement of soundness, which the faithful model violates:
-  `∀ s i j, Matches reTables ipv4Regex s i j → ValidV4 (slice s i j)`   (with the engine's real `\d` = Unicode Nd)
-It is proved under `AsciiDigits T` (`ipv4_sound`) and refuted for the engine's real tables by the witness `1.2.3.٤`
-(`ipv4_unsound_unicode_digits`), which the correspondence replays on `recognize_ip_address` (finding
-`ipv4-unicode-digit`).
+History: before /repo commit d5d414a77 the patterns used `\d`, and soundness failed for the engine's real tables
+(Unicode Nd): witness `1.2.3.٤`.  That is kept as a regression theorem about the literal pre-fix pattern
+(`prefix_ipv4_unsound_unicode_digits`), next to the proof that the current pattern rejects the witness; the
+correspondence keeps the probes `1.2.3.٤`, `1.2.3.４`, `::٤` in its corpus.
 -/
 namespace RTV.C13
 open RTV.Re RTV.Seq RTV.Py RTV.Match
 
-/-- The octet alternation `1\d{2}|2[0-4]\d|25[0-5]|0?[1-9]\d|0{0,2}\d` matches from `i` to `j` iff `s[i:j]` is 1–3
-ASCII digits with value ≤ 255 (positional form `OctetAt`). -/
-theorem octet_lang {T : Tables} (hd : AsciiDigits T) (s : Array Nat) (i j : Nat) :
-    j ∈ ends T s octetRE i ↔ OctetAt s i j := octetRE_lang hd s i j
+/-- The octet alternation `1[0-9]{2}|2[0-4][0-9]|25[0-5]|0?[1-9][0-9]|0{0,2}[0-9]` matches from `i` to `j` iff
+`s[i:j]` is 1–3 ASCII digits with value ≤ 255 (positional form `OctetAt`). -/
+theorem octet_lang (T : Tables) (s : Array Nat) (i j : Nat) :
+    j ∈ ends T s octetRE i ↔ OctetAt s i j := octetOf_lang (digitClass_range T) s i j
 
 /-- `OctetAt` is the list-level `Oct` of the slice. -/
 theorem octet_is_oct {s : Array Nat} {i j : Nat} (h : OctetAt s i j) : Oct (slice s i j) := OctetAt_oct h
 
-/-- The language of the regenerated `Ipv4Regex`: word boundary, dotted quad, word boundary. -/
-theorem ipv4_lang {T : Tables} (hd : AsciiDigits T) (s : Array Nat) (i j : Nat) :
-    Matches T RTV.Gen.ipv4Regex s i j ↔
+private theorem ipv4Of_valid {T : Tables} {x : RE} (hx : DigitClass T x) (s : Array Nat) (i j : Nat) :
+    j ∈ ends T s (ipv4Of x) i ↔
       isWordB T s i = true ∧ j ≤ s.size ∧ ValidV4 (slice s i j) ∧ isWordB T s j = true := by
-  unfold Matches
-  rw [gen_ipv4, ipv4RE_lang hd]
+  rw [ipv4Of_lang hx]
   constructor
   · rintro ⟨h1, h2, h3⟩
     obtain ⟨k1, _, k2, _, k3, _, h4⟩ := h2
@@ -38,52 +36,70 @@ theorem ipv4_lang {T : Tables} (hd : AsciiDigits T) (s : Array Nat) (i j : Nat) 
   · rintro ⟨h1, h2, h3, h4⟩
     exact ⟨h1, valid_V4Body h2 h3, h4⟩
 
-/-- C13 soundness of the IPv4 regex when `\d` means ASCII digit: every match is a dotted quad of octets 0..255. -/
-theorem ipv4_sound {T : Tables} (hd : AsciiDigits T) (s : Array Nat) (i j : Nat)
+/-- The language of the regenerated `Ipv4Regex`: word boundary, dotted quad of octets 0..255, word boundary. -/
+theorem ipv4_lang (T : Tables) (s : Array Nat) (i j : Nat) :
+    Matches T RTV.Gen.ipv4Regex s i j ↔
+      isWordB T s i = true ∧ j ≤ s.size ∧ ValidV4 (slice s i j) ∧ isWordB T s j = true := by
+  unfold Matches
+  rw [gen_ipv4]
+  exact ipv4Of_valid (digitClass_range T) s i j
+
+/-- C13 soundness of the IPv4 regex, for every engine tables: every match is a dotted quad of octets 0..255. -/
+theorem ipv4_sound (T : Tables) (s : Array Nat) (i j : Nat)
     (h : Matches T RTV.Gen.ipv4Regex s i j) : ValidV4 (slice s i j) :=
-  ((ipv4_lang hd s i j).1 h).2.2.1
+  ((ipv4_lang T s i j).1 h).2.2.1
 
 /-- `1.2.3.٤` (U+0664 ARABIC-INDIC DIGIT FOUR) -/
 def witnessUnicodeDigit : Array Nat := #[49, 46, 50, 46, 51, 46, 1636]
 
-/-- NEGATIVE: with the tables of the running `regex` module (`\d` = Unicode Nd) the regex matches `1.2.3.٤`,
-which is not an IPv4 address (defect #8; replayed on `recognize_ip_address` by the correspondence). -/
-theorem ipv4_unsound_unicode_digits :
-    ¬ ∀ (s : Array Nat) (i j : Nat), Matches RTV.Gen.reTables RTV.Gen.ipv4Regex s i j → ValidV4 (slice s i j) := by
+/-- REGRESSION (defect #8, fixed by /repo d5d414a77): with the tables of the running `regex` module (`\d` = Unicode
+Nd) the PRE-FIX pattern `ipv4PreFixRE` matches `1.2.3.٤`, which is not an IPv4 address. -/
+theorem prefix_ipv4_unsound_unicode_digits :
+    ¬ ∀ (s : Array Nat) (i j : Nat), Matches RTV.Gen.reTables ipv4PreFixRE s i j → ValidV4 (slice s i j) := by
   intro h
-  have hm : Matches RTV.Gen.reTables RTV.Gen.ipv4Regex witnessUnicodeDigit 0 7 := by decide +kernel
+  have hm : Matches RTV.Gen.reTables ipv4PreFixRE witnessUnicodeDigit 0 7 := by decide +kernel
   have hv := ValidV4_chars (h _ _ _ hm) 1636 (by decide)
   omega
 
-/-- the hypothesis of `ipv4_sound` is satisfiable (`re.ASCII` tables) … -/
+/-- the pre-fix pattern was sound exactly when `\d` means ASCII digit -/
+theorem prefix_ipv4_sound_ascii {T : Tables} (hd : AsciiDigits T) (s : Array Nat) (i j : Nat)
+    (h : Matches T ipv4PreFixRE s i j) : ValidV4 (slice s i j) :=
+  ((ipv4Of_valid (digitClass_dg hd) s i j).1 h).2.2.1
+
 example : AsciiDigits asciiTables := by
   intro c; simp [asciiTables]
-/-- … and a match exists under it -/
-example : Matches asciiTables RTV.Gen.ipv4Regex #[49, 46, 50, 46, 51, 46, 52] 0 7 := by decide +kernel
+
+/-- the current pattern finds nothing in the witness (engine's real tables) -/
+theorem ipv4_rejects_unicode_digit_witness :
+    findAll RTV.Gen.reTables witnessUnicodeDigit RTV.Gen.ipv4Regex = [] := by decide +kernel
+
+/-- a match exists (engine's real tables) -/
+example : Matches RTV.Gen.reTables RTV.Gen.ipv4Regex #[49, 46, 50, 46, 51, 46, 52] 0 7 := by decide +kernel
 
 /-- C13 completeness + uniqueness for IPv4: a valid dotted quad at `[i, j)` that is delimited by word boundaries is
-matched from `i`, and every match from `i` ends exactly at `j`. -/
-theorem ipv4_complete_unique {T : Tables} (hd : AsciiDigits T) (hw : ∀ c, 48 ≤ c ∧ c ≤ 57 → T.word c = true)
+matched from `i`, and every match from `i` ends exactly at `j`.  `hw`: ASCII digits are word characters
+(`real_digits_are_word` for the engine's tables). -/
+theorem ipv4_complete_unique {T : Tables} (hw : ∀ c, 48 ≤ c ∧ c ≤ 57 → T.word c = true)
     (s : Array Nat) (i j : Nat) (hj : j ≤ s.size) (hv : ValidV4 (slice s i j))
     (hbi : isWordB T s i = true) (hbj : isWordB T s j = true) :
     ∀ j', Matches T RTV.Gen.ipv4Regex s i j' ↔ j' = j := by
   intro j'
   constructor
   · intro h
-    have h' := (ipv4_lang hd s i j').1 h
+    have h' := (ipv4_lang T s i j').1 h
     exact V4Body_det hw (valid_V4Body h'.2.1 h'.2.2.1) (valid_V4Body hj hv) h'.2.2.2 hbj
   · rintro rfl
-    exact (ipv4_lang hd s i j').2 ⟨hbi, hj, hv, hbj⟩
+    exact (ipv4_lang T s i j').2 ⟨hbi, hj, hv, hbj⟩
 
 /-- … hence a backtracking engine started at `i` reports exactly `[i, j)`. -/
-theorem ipv4_reported_span {T : Tables} (hd : AsciiDigits T) (hw : ∀ c, 48 ≤ c ∧ c ≤ 57 → T.word c = true)
+theorem ipv4_reported_span {T : Tables} (hw : ∀ c, 48 ≤ c ∧ c ≤ 57 → T.word c = true)
     (s : Array Nat) (i j : Nat) (hj : j ≤ s.size) (hv : ValidV4 (slice s i j))
     (hbi : isWordB T s i = true) (hbj : isWordB T s j = true) :
     firstEnd T s RTV.Gen.ipv4Regex i = some j :=
-  firstEnd_of_unique (ipv4_complete_unique hd hw s i j hj hv hbi hbj)
+  firstEnd_of_unique (ipv4_complete_unique hw s i j hj hv hbi hbj)
 
 /-- the hypotheses are satisfiable: `ip 10.0.0.255!` -/
-example : firstEnd asciiTables #[105, 112, 32, 49, 48, 46, 48, 46, 48, 46, 50, 53, 53, 33] RTV.Gen.ipv4Regex 3 = some 13 := by
+example : firstEnd RTV.Gen.reTables #[105, 112, 32, 49, 48, 46, 48, 46, 48, 46, 50, 53, 53, 33] RTV.Gen.ipv4Regex 3 = some 13 := by
   decide +kernel
 
 /-- ASCII digits are word characters for the engine's real tables too (hypothesis `hw` above). -/
@@ -172,13 +188,13 @@ theorem ip_extract_sound (T : Tables) (K : CharClass) (v4 v6 : RE) (s : List Nat
     · have := tagged_mem hm
       exact .inr ⟨this.2, findAll_sound _ this.1⟩
 
-/-- … so, under ASCII `\d`, every entity tagged `ipv4` is a valid dotted quad. -/
-theorem ip_extract_v4_valid {T : Tables} (hd : AsciiDigits T) (K : CharClass) (v6 : RE) (s : List Nat) :
+/-- … so every entity tagged `ipv4` is a valid dotted quad. -/
+theorem ip_extract_v4_valid (T : Tables) (K : CharClass) (v6 : RE) (s : List Nat) :
     ∀ r ∈ ipExtract T K RTV.Gen.ipv4Regex v6 s, r.data = "ipv4" →
       ValidV4 (slice s.toArray r.start (r.start + r.len)) := by
   intro r hr hdata
   obtain ⟨b, hl, h | h⟩ := ip_extract_sound T K _ v6 s r hr
-  · have hm := (ipv4_lang hd _ _ _).1 h.2
+  · have hm := (ipv4_lang T _ _ _).1 h.2
     obtain ⟨a', b', c', d', ha, _, _, _, e⟩ := hm.2.2.1
     have hlt : r.start < b := by
       by_cases hlt : r.start < b
@@ -190,5 +206,86 @@ theorem ip_extract_v4_valid {T : Tables} (hd : AsciiDigits T) (K : CharClass) (v
     have : r.start + r.len = b := by omega
     rw [this]; exact hm.2.2.1
   · rw [hdata] at h; exact absurd h.1 (by decide)
+
+/-! ### GUIDs (`BaseGUID.GUIDRegex`; the classes are explicit ranges, so these hold for the engine's real tables) -/
+
+/-- The language of the regenerated `GUIDRegex`: exactly the five layouts of `GuidAt` around a core
+`8-4-4-4-12` / 32 hex digits (either letter case, the regex is compiled with IGNORECASE). Soundness (`→`) and
+completeness (`←`) in one statement, for every tables `T`. -/
+theorem guid_lang (T : Tables) (s : Array Nat) (i j : Nat) :
+    Matches T RTV.Gen.guidRegex s i j ↔ GuidAt T s i j := by
+  unfold Matches; rw [gen_guid]; exact guidRE_lang s i j
+
+/-- C13 soundness for GUIDs: every match contains a well-formed core, preceded by at most 9 and followed by at
+most 3 wrapper characters. -/
+theorem guid_sound (T : Tables) (s : Array Nat) (i j : Nat) (hm : Matches T RTV.Gen.guidRegex s i j) :
+    ∃ a b, i ≤ a ∧ a ≤ i + 9 ∧ b ≤ j ∧ j ≤ b + 3 ∧ GuidCoreAt s a b := by
+  rcases (guid_lang T s i j).1 hm with ⟨_, h, _⟩ | ⟨_, k, h, _, rfl⟩ | ⟨_, _, _, _, _, _, _, _, _, h, _⟩ |
+    ⟨_, _, _, k, h, _, _, _, rfl⟩ | ⟨_, _, k, h, _, rfl⟩
+  · exact ⟨i, j, by omega, by omega, by omega, by omega, h⟩
+  · exact ⟨i + 1, k, by omega, by omega, by omega, by omega, h⟩
+  · exact ⟨i + 9, j, by omega, by omega, by omega, by omega, h⟩
+  · exact ⟨i + 3, k, by omega, by omega, by omega, by omega, h⟩
+  · exact ⟨i + 2, k, by omega, by omega, by omega, by omega, h⟩
+
+private theorem hex_ne {c : Nat} (h : isHexI c) :
+    c ≠ 123 ∧ c ≠ 85 ∧ c ≠ 117 ∧ c ≠ 37 ∧ c ≠ 88 ∧ c ≠ 120 := by unfold isHexI at h; omega
+
+/-- C13 completeness + uniqueness, plain / upper-case / undashed layouts: a GUID core at `[i, j)` delimited by word
+boundaries is matched from `i`, and every match from `i` ends at `j`. -/
+theorem guid_complete_unique_plain (T : Tables) (s : Array Nat) (i j : Nat) (hc : GuidCoreAt s i j)
+    (hbi : isWordB T s i = true) (hbj : isWordB T s j = true) :
+    ∀ j', Matches T RTV.Gen.guidRegex s i j' ↔ j' = j := by
+  intro j'
+  rw [guid_lang]
+  have hx := hex_ne (GuidCoreAt_first_hex hc)
+  constructor
+  · rintro (⟨_, h, _⟩ | ⟨h0, _⟩ | ⟨h0, _⟩ | ⟨h0, _⟩ | ⟨h0, _⟩)
+    · exact GuidCoreAt_det h hc
+    · exact absurd h0 hx.1
+    · rcases h0 with h0 | h0
+      · exact absurd h0 hx.2.1
+      · exact absurd h0 hx.2.2.1
+    · exact absurd h0 hx.2.2.2.1
+    · rcases h0 with h0 | h0
+      · exact absurd h0 hx.2.2.2.2.1
+      · exact absurd h0 hx.2.2.2.2.2
+  · rintro rfl; exact .inl ⟨hbi, hc, hbj⟩
+
+/-- … braced layout `{core}`: no boundary condition is needed. -/
+theorem guid_complete_unique_braced (T : Tables) (s : Array Nat) (i k : Nat) (h0 : code s i = 123)
+    (hc : GuidCoreAt s (i + 1) k) (h1 : code s k = 125) :
+    ∀ j', Matches T RTV.Gen.guidRegex s i j' ↔ j' = k + 1 := by
+  intro j'
+  rw [guid_lang]
+  constructor
+  · rintro (⟨_, h, _⟩ | ⟨_, k', h, _, rfl⟩ | ⟨h, _⟩ | ⟨h, _⟩ | ⟨h, _⟩)
+    · have := hex_ne (GuidCoreAt_first_hex h); exact absurd h0 this.1
+    · rw [GuidCoreAt_det h hc]
+    · omega
+    · omega
+    · omega
+  · rintro rfl; exact .inr (.inl ⟨h0, k, hc, h1, rfl⟩)
+
+/-- hence the engine reports exactly the token (both layouts) -/
+theorem guid_reported_span (T : Tables) (s : Array Nat) (i j : Nat) (hc : GuidCoreAt s i j)
+    (hbi : isWordB T s i = true) (hbj : isWordB T s j = true) :
+    firstEnd T s RTV.Gen.guidRegex i = some j :=
+  firstEnd_of_unique (guid_complete_unique_plain T s i j hc hbi hbj)
+
+/-- the hypotheses are satisfiable (real engine tables): `{01234567-89AB-cdef-0123-456789abcdef}` and the core alone -/
+example : firstEnd RTV.Gen.reTables
+    #[123, 48, 49, 50, 51, 52, 53, 54, 55, 45, 56, 57, 65, 66, 45, 99, 100, 101, 102, 45, 48, 49, 50, 51, 45, 52, 53, 54,
+      55, 56, 57, 97, 98, 99, 100, 101, 102, 125] RTV.Gen.guidRegex 0 = some 38 := by decide +kernel
+
+/-- Every entity `BaseGUIDExtractor.extract` reports has exactly the span of a match of the GUID regex. -/
+theorem guid_extract_sound (T : Tables) (K : CharClass) (g : RE) (s : List Nat) :
+    ∀ r ∈ guidExtract T K g s, ∃ b, r.len = b - r.start ∧ Matches T g s.toArray r.start b := by
+  intro r hr
+  unfold guidExtract seqSweep at hr
+  split at hr
+  · simp at hr
+  · obtain ⟨b, hm, hl⟩ := sweepGo_mem _ _ _ _ _ _ _ r hr
+    exact ⟨b, hl, findAll_sound _ (tagged_mem hm).1⟩
 
 end RTV.C13
